@@ -81,6 +81,12 @@ CHECKS = {
         'element g after the operation is the stated pair for an arbitrary g, proxies designate exactly (&values[i], flag bit i), at() throws exactly for i >= size(), == is true exactly when sizes, values and flags match (ghost witnesses for inequality).',
    note=PROOF_NOTE + 'int elements, uint8_t flag blocks; sizes up to 10^6 (unbounded in the proof, loop contracts in the vector model). Bitset members enter through their C03 contracts. Iterators of the sequences are exercised by the native replay only (not_reached).',
    technique='CBMC code contracts (DFCC) on mechanically lowered sequence classes; callee contracts of C03 reused (replace-call-with-contract); native replay of operation histories under ASan', design='4 C11'),
+ 'C10': dict(
+   text='xcomplex<float> operators through one wrapper per overload (the library code is inlined into each proof): + - * / unary minus == != on value closures, reference closures (same results; compound assignment writes the referents and never rebinds), '
+        'mixed real/complex forms; naive mode equals the textbook formulas term for term; ieee mode: C99 Annex G clauses for * and / stated literally with CBMC\'s bit-precise float semantics for EVERY operand (all 2^128 operand combinations), '
+        'plus the scaling clause for divisors +-2^k of any normal magnitude. One recorded finding (finite / infinity with an overflowing dividend).',
+   note=PROOF_NOTE + 'float only; "within a few units of rounding" is decided as equality with the float-evaluated textbook formula (no error analysis); the formula contracts use uninterpreted float arithmetic (commutative + and *). Loop-free except the 24-step subnormal loop of the logb model (unwinding assertions).',
+   technique='CBMC code contracts (DFCC) with bit-precise IEEE-754 semantics for the Annex G clauses and uninterpreted float arithmetic for the formula contracts; native replay on counterexample operands and a special-value grid', design='4 C10'),
 }
 NA = {
  'C05': 'variant lifetimes under exceptions, placement-new into a recursive union and visitation tables built from lambdas: no C++ exception/lifetime semantics in CBMC and no faithful mechanical lowering; a hand-written model would be a different technique (DESIGN.md 6)',
